@@ -2,6 +2,7 @@
 pools of Serialize.tla, and let TLC validate the recorded behaviours against Enc / Dec / RState
 (spec/codec/Trace_Serialize.tla, one batched run, `mismatch` names trace id and failing clause)."""
 import json
+import math
 import os
 import re
 import tempfile
@@ -15,12 +16,15 @@ TRACE_MODULE = "codec/Trace_Serialize.tla"
 WIDE = ["PyInt", "PyFloat", "NpInt32", "NpInt64", "NpFloat32", "NpFloat64"]
 NARROW = ["NpInt8", "NpInt16", "NpUInt8", "NpUInt16", "NpUInt32", "NpUInt64", "NpFloat16"]
 DTYPES = ["int8", "int16", "int32", "int64", "uint8", "uint16", "uint32", "uint64", "float16", "float32", "float64"]
-WORDS = ["", "a", "ab", "snr", "q p", "x_1"]
+WORDS = ["", "a", "ab", "snr", "q p", "x_1", "c{snr}", "{0}", "set{{A}}", "100%s", "}{", "Ab", "caf\u00e9 \u221a2"]
 
 
 # ------------------------------------------------------------------------------- random descriptions
 def rnd_num(rng, t):
     if t in ("PyFloat", "NpFloat16", "NpFloat32", "NpFloat64"):
+        r = rng.rand()
+        if r < 0.08:  # +-inf (d = 0) and -0.0 (n = 0, d = -1); NaN is outside the property
+            return {"t": t, "n": [1, -1][rng.randint(2)], "d": 0, "s": ""} if r < 0.06 else {"t": t, "n": 0, "d": -1, "s": ""}
         f = Fraction(int(rng.randint(-40, 41)), int(2 ** rng.randint(0, 4)))
         return {"t": t, "n": f.numerator, "d": f.denominator, "s": ""}
     lo = 0 if t.startswith("NpUInt") else -100
@@ -43,7 +47,8 @@ def rnd_array(rng):
         data = []
         for _ in range(size):
             f = Fraction(int(rng.randint(-40, 41)), int(2 ** rng.randint(0, 4)))
-            data.append([f.numerator, f.denominator])
+            r = rng.rand()
+            data.append([1, 0] if r < 0.04 else [-1, 0] if r < 0.08 else [0, -1] if r < 0.1 else [f.numerator, f.denominator])
     else:
         lo = 0 if dt.startswith("uint") else -100
         data = [[int(rng.randint(lo, 101)), 1] for _ in range(size)]
@@ -60,7 +65,7 @@ def rnd_value(rng, depth):
         elems, seen = [], set()
         for _ in range(rng.randint(0, 4)):
             e = rnd_scalar(rng)
-            k = ("s", e["s"]) if e["t"] == "Str" else ("n", Fraction(e["n"], e["d"]))
+            k = ("s", e["s"]) if e["t"] == "Str" else ("n", (e["n"], 0) if e["d"] == 0 else Fraction(e["n"], abs(e["d"])))
             if k not in seen:  # a Python set identifies numerically equal members
                 seen.add(k)
                 elems.append(e)
@@ -94,7 +99,12 @@ def rnd_result(rng):
 
 # ------------------------------------------------------------------------------- projections
 def frac(x):
-    f = Fraction(float(x))
+    x = float(x)
+    if math.isinf(x):
+        return (1, 0) if x > 0 else (-1, 0)
+    if x == 0.0 and math.copysign(1.0, x) < 0:
+        return 0, -1
+    f = Fraction(x)
     return f.numerator, f.denominator
 
 
